@@ -636,8 +636,9 @@ HXPread(accrec_t *access_rec, int32 length, void *data)
     /* adjust length if it falls off the end of the element */
     if ((length == 0) || (access_rec->posn + length > info->length))
         length = info->length - access_rec->posn;
-    else if (length < 0)
-        HGOTO_ERROR(DFE_RANGE, FAIL);
+    /* positioned at or beyond the end of the element: nothing to read there */
+    if (length < 0)
+        length = 0;
 
     /* if the file is open but external directory is changed (by HXsetdir),
        then close the file first before making the new file path */
